@@ -102,9 +102,10 @@ def splitQuotes (s : Bytes) : Bytes × Bool :=
     then ((s.drop 1).dropLast, true)
   else (s, false)
 
-/-- the optional `[]` suffix of parserSingleType (only one) -/
+/-- the `[]` suffixes of parserSingleType: each one wraps the type read so far (`string[][]` is an array of
+    `string[]`; before the repair of finding C16-K1 only one suffix was read) -/
 def arrSuffix (t : Ty) : List Tok → Option (Ty × List Tok)
-  | .lbrack :: .rbrack :: r => some (.array t, r)
+  | .lbrack :: .rbrack :: r => arrSuffix (.array t) r
   | .lbrack :: _ => none
   | r => some (t, r)
 
@@ -258,9 +259,9 @@ def canonB : Ty → Bool
   | .tableE => true
   | .table k v => canonM k && canonM v
   | _ => false
-/-- a base type, or an array of a base type -/
+/-- a base type, or an array (of arrays …) of a base type -/
 def canonS : Ty → Bool
-  | .array t => canonB t
+  | .array t => canonS t
   | t => canonB t
 /-- a union of at least one canonical single type -/
 def canonM : Ty → Bool
@@ -279,7 +280,7 @@ def toksB : Ty → List Tok
   | .table k v => [.kw .table, .lt] ++ toksM k ++ [.comma] ++ toksM v ++ [.gt]
   | _ => []
 def toksS : Ty → List Tok
-  | .array t => toksB t ++ [.lbrack, .rbrack]
+  | .array t => toksS t ++ [.lbrack, .rbrack]
   | t => toksB t
 def toksM : Ty → List Tok
   | .multi (t :: l) => toksS t ++ toksL l
@@ -296,7 +297,7 @@ def costB : Ty → Nat
   | .table k v => max (costM k) (costM v) + 2
   | _ => 1
 def costS : Ty → Nat
-  | .array t => costB t + 1
+  | .array t => costS t
   | t => costB t + 1
 def costM : Ty → Nat
   | .multi (t :: l) => max (costS t) (costL l) + 2
